@@ -593,6 +593,8 @@ X(ev_add_signal, "event_add.signal", N_EV, struct timeval t; struct event *e; C(
 X(ev_signal_loopctl, "signal callback: loopbreak/continue/exit/del during delivery", N_EV, struct event *e; f->sigctl = (int)vh_below(r, 5); \
 	C(e = event_new(f->base, SIGUSR2, EV_SIGNAL|EV_PERSIST, sig_ctl_cb, f)); if (e) { f->ev_sigctl = e; C(event_add(e, NULL)); \
 	C(event_active(e, EV_SIGNAL, (short)(1 + vh_below(r, 4)))); step(f, 2); C(event_del(e)); C(event_free(e)); f->ev_sigctl = NULL; }) \
+X(loop_wait_fails, "event_base_loop whose backend wait fails (EINTR / EINVAL)", N_EV, vclk_fail_next_wait = vh_chance(r, 2, 3) ? EINTR : EINVAL; \
+	C(event_base_loop(f->base, EVLOOP_ONCE | EVLOOP_NONBLOCK)); vclk_fail_next_wait = 0; step(f, 1)) \
 X(ev_add_finalizing, "event_add.finalizing", N_EV, C(event_finalize(0, f->ev_fin, ev_fin_cb)); C(event_add(f->ev_fin, NULL)); C(event_del(f->ev_fin)); \
 	C(event_active(f->ev_fin, EV_READ, 1)); step(f, 1)) \
 X(ev_del, "event_del", N_EV, C(event_del(f->ev_io)); C(event_del(f->ev_io)); C(event_del_block(f->ev_tmr)); C(event_del_noblock(f->ev_sig)); \
@@ -740,6 +742,12 @@ X(bev_ratelim, "bufferevent_set_rate_limit/group", N_BEV, struct bufferevent *b 
 	C(c2 = ev_token_bucket_cfg_new(10, 20, EV_RATE_LIMIT_MAX, EV_RATE_LIMIT_MAX, &t)); if (c2) { C(bufferevent_rate_limit_group_set_cfg(f->grp, c2)); C(ev_token_bucket_cfg_free(c2)); } \
 	C(ev_token_bucket_cfg_new(10, 5, 10, 5, NULL)); C(bufferevent_set_max_single_read(b, pick_len(r))); C(bufferevent_set_max_single_write(b, pick_len(r))); \
 	C(bufferevent_remove_from_rate_limit_group(b)); C(bufferevent_set_rate_limit(b, NULL))) \
+X(bev_grp_contended, "rate-limit group runs dry while its members' locks are contended (try-lock fails)", N_BEV, \
+	C(bufferevent_add_to_rate_limit_group(f->bs, f->grp)); C(bufferevent_add_to_rate_limit_group(f->bp[0], f->grp)); C(bufferevent_add_to_rate_limit_group(f->bp[1], f->grp)); \
+	lm_fail_trylock = 1000; C(bufferevent_rate_limit_group_decrement_write(f->grp, 1 << 28)); C(bufferevent_rate_limit_group_decrement_read(f->grp, 1 << 28)); \
+	C(bufferevent_write(f->bs, bigbuf, 100)); step(f, 2); lm_fail_trylock = 0; \
+	C(bufferevent_rate_limit_group_decrement_write(f->grp, -(1 << 29))); C(bufferevent_rate_limit_group_decrement_read(f->grp, -(1 << 29))); step(f, 2); \
+	C(bufferevent_remove_from_rate_limit_group(f->bs)); C(bufferevent_remove_from_rate_limit_group(f->bp[0])); C(bufferevent_remove_from_rate_limit_group(f->bp[1]))) \
 X(bev_grp_new_free, "bufferevent_rate_limit_group_new/free", N_BEV, struct bufferevent_rate_limit_group *g; C(g = bufferevent_rate_limit_group_new(f->base, f->tb)); \
 	if (g) { C(bufferevent_remove_from_rate_limit_group(f->bp[0])); C(bufferevent_add_to_rate_limit_group(f->bp[0], g)); C(bufferevent_remove_from_rate_limit_group(f->bp[0])); C(bufferevent_rate_limit_group_free(g)); })
 
